@@ -105,6 +105,11 @@ pub fn gen(tier: &str, rng: &mut Rng, emit: &mut dyn FnMut(String)) {
         emit(format!("tnew {}", hex(s.as_bytes())));
         emit(format!("tenc {}", hex(s.as_bytes())));
     });
+    for s in boundary_texts(tier) {
+        emit(format!("tnew {}", hex(s.as_bytes())));
+        emit(format!("tenc {}", hex(s.as_bytes())));
+        emit(format!("tenc {}", hex(rfc_escape(&s).as_bytes())));
+    }
     let n = if tier == "thorough" { 50_000 } else { 2_000 };
     for i in 0..n {
         let s = random_text(rng, if i % 50 == 0 { 4096 } else { 40 });
